@@ -2,6 +2,7 @@
 # modules, validate implementation traces with TLC, classify violations, write evidence.
 # Exit codes: 0 held (maybe KNOWN-FINDING lines) / 1 VIOLATION / 2 machinery problem (never a verdict).
 import json, os, re, shutil, subprocess, sys, tempfile, time, concurrent.futures as cf
+import tlaval
 
 VERIF = os.path.dirname(os.path.dirname(os.path.abspath(__file__)))
 REPO = os.environ.get("VERIF_REPO", "/repo")
@@ -174,18 +175,15 @@ def _validate_chunk(work, trace_module, trace_cfg, chunk_path, idx, heap, timeou
     shutil.copyfile(chunk_path, os.path.join(d, "trace.ndjson"))
     r = run_tlc(d, trace_module, trace_cfg, workers=workers, heap=heap, timeout=timeout, env_extra=env_extra)
     viols, end, infos = [], None, []
-    for line in r["out"].splitlines():
-        m = RE_VIOL.match(line)
-        if m:
-            viols.append(dict(tid=int(m.group(1)), i=int(m.group(2)), prop=m.group(3), aspect=m.group(4), detail=m.group(5)))
-            continue
-        m = RE_END.match(line)
-        if m:
-            end = (int(m.group(1)), int(m.group(2)))
-            continue
-        m = RE_INFO.match(line)
-        if m:
-            infos.append((m.group(1), m.group(2)))
+    for t in tlaval.extract_tuples(r["out"]):
+        if t[0] == "VIOL" and len(t) >= 6:
+            viols.append(dict(tid=t[1], i=t[2], prop=t[3], aspect=t[4], detail=json.dumps(t[5], sort_keys=True)))
+        elif t[0] == "TRACE-END":
+            end = (t[1], t[2])
+        elif t[0] == "INFO":
+            infos.append((t[1], t[2:]))
+        elif t[0] == "UNPARSED":
+            raise Machinery("could not parse TLC output tuple: %s" % t[1][:300])
     shutil.rmtree(d, ignore_errors=True)
     if end is None:
         raise Machinery("TLC did not finish trace validation of %s (chunk %d):\n%s" % (trace_module, idx, tlc_error_summary(r["out"]) or r["out"][-2500:]))
